@@ -889,7 +889,10 @@ static uint64_t run_single(const SCase& sc, Ctx& c)
    make_init(s, mo, st, sc.init);
    if(sc.pre) apply_pre(s, st, sc.p);
    Judge j{c, [&]() { return sc.str(); }, [&]() { return sc.pretty(); }};
-   std::string opdesc = sc.opdesc(), op = FENAME[sc.fe];
+   // shape of the one-line settings file: every (parameter, value) pair occurs under several (init, pre) combinations, so all three shapes are exercised for it
+   static const char* SHAPE[] = {"", "+no-trailing-newline", "+after-comment-and-blank-line"};
+   int shape = sc.fe == FE_LOAD ? (sc.init + sc.pre + sc.p.idx) % 3 : 0;
+   std::string opdesc = sc.opdesc() + SHAPE[shape], op = FENAME[sc.fe];
    // sanity of the starting point (also makes the pre-state part of the check)
    {
       std::string dd;
@@ -906,7 +909,8 @@ static uint64_t run_single(const SCase& sc, Ctx& c)
    else
    {
       path = g_outdir + "/one-" + std::to_string(getpid()) + ".set";
-      { std::ofstream f(path); f << sc.line << "\n"; }
+      { std::ofstream f(path); if(shape == 2) f << "# a comment line\n\n"; f << sc.line; if(shape != 1) f << "\n"; }
+      c.count(std::string("single.load.file_shape") + (shape ? SHAPE[shape] : "+plain"));
       r = do_load(s, path);
    }
    c.count("single.executed");
